@@ -237,6 +237,22 @@ func (w *c06W) battery(idx int64, desc func() interface{}, in *c06Input, d *docu
 	b.call(st, "GetPageSettings", false, func(d *document.Document) { _ = d.GetPageSettings() })
 	b.resave("after-page-settings", b.d)
 
+	// ---- stage: table-of-contents calls on the document as opened (before anything below adds a TOC of the
+	// library's own making, which the later TOC calls would find first)
+	st = "toc-as-opened"
+	if !light {
+		if !b.fresh {
+			b.reopen()
+		}
+		b.call(st, "UpdateTOC", true, func(d *document.Document) { _ = d.UpdateTOC() })
+		b.call(st, "ListHeadings", false, func(d *document.Document) { _ = d.ListHeadings(); _ = d.GetHeadingCount() })
+		b.resave("after-UpdateTOC", b.d)
+		b.reopen()
+		b.call(st, "AutoGenerateTOC", true, func(d *document.Document) { _ = d.AutoGenerateTOC(document.DefaultTOCConfig()) })
+		b.call(st, "UpdateTOC after AutoGenerateTOC", true, func(d *document.Document) { _ = d.UpdateTOC() })
+		b.resave("after-AutoGenerateTOC", b.d)
+	}
+
 	// ---- stage: body edits
 	st = "edit"
 	if !b.fresh {
